@@ -408,8 +408,10 @@ func (s *c18sys) cleanup() {
 }
 
 func c18RunCase(g c18graph, cfg c18cfg, targets []int, r *rng, steps int) []string {
-	s, errs := newC18sys(g, cfg, targets)
 	head := g.String() + ";" + cfg.String() + ";" + ints(targets)
+	tr := newTrack("C18.run", head)
+	defer tr.done()
+	s, errs := newC18sys(g, cfg, targets)
 	if s == nil {
 		return []string{"C18.run", head, "-", errs}
 	}
@@ -433,6 +435,7 @@ func c18RunCase(g c18graph, cfg c18cfg, targets []int, r *rng, steps int) []stri
 	snaps := []string{s.snapshot()}
 	var done []string
 	if r.chance(3, 4) {
+		tr.step("SA")
 		s.do("SA")
 		done = append(done, "SA")
 		snaps = append(snaps, s.snapshot())
@@ -448,12 +451,14 @@ func c18RunCase(g c18graph, cfg c18cfg, targets []int, r *rng, steps int) []stri
 			break
 		}
 		a := pick(r, app)
+		tr.step(a)
 		s.do(a)
 		done = append(done, a)
 		snaps = append(snaps, s.snapshot())
 	}
 	// final phase: stop everything, then let every parked function return nil, one at a time
 	if s.applicable("XA") {
+		tr.step("XA")
 		s.do("XA")
 		done = append(done, "XA")
 		snaps = append(snaps, s.snapshot())
@@ -469,6 +474,7 @@ func c18RunCase(g c18graph, cfg c18cfg, targets []int, r *rng, steps int) []stri
 		if a == "" {
 			break
 		}
+		tr.step(a)
 		s.do(a)
 		done = append(done, a)
 		snaps = append(snaps, s.snapshot())
